@@ -18,6 +18,7 @@ use crate::prefix_parser::PrefixParserResult;
 use crate::pretty_print::PrettyPrint;
 use crate::quantity::Quantity;
 use crate::resolver::{CodeSource, ResolverError};
+use crate::typechecker::type_scheme::TypeScheme;
 use crate::unit::Unit;
 use crate::value::Value;
 
@@ -438,6 +439,59 @@ fn describe_value(v: &Value) -> String {
     }
 }
 
+
+/// Text of a type scheme that does not depend on the numbering of its quantified variables: they are renamed
+/// `'0, '1, …` in the order of their first occurrence in the body (the type checker numbers them in the order of
+/// the *names* of the unification variables they replace, `T9 < T10` as strings, which is an accident of how
+/// many fresh variables the session had used before).
+fn canonical_scheme(ts: &TypeScheme) -> String {
+    let n = match ts {
+        TypeScheme::Concrete(t) => return t.pretty_print().to_string(),
+        TypeScheme::Quantified(n, _) => *n,
+    };
+    // perm[k] = index of the quantified variable that gets the k-th placeholder name
+    let mut perm: Vec<usize> = (0..n).collect();
+    let mut seen: Vec<String> = vec![];
+    for _ in 0..(n + 2) {
+        let mut names: Vec<String> = vec![String::new(); n];
+        for (k, &v) in perm.iter().enumerate() {
+            names[v] = format!("\u{1}{k:03}\u{2}");
+        }
+        let (qt, tvs) = ts.instantiate_for_printing(Some(names.iter().map(|s| s.as_str())));
+        let body = qt.inner.pretty_print().to_string();
+        // order of first occurrence of the placeholders in the body
+        let mut order: Vec<usize> = vec![];
+        let mut rest = body.as_str();
+        while let Some(p) = rest.find('\u{1}') {
+            let k: usize = rest[p + 1..p + 4].parse().unwrap_or(0);
+            if !order.contains(&k) {
+                order.push(k);
+            }
+            rest = &rest[p + 5..];
+        }
+        for k in 0..n {
+            if !order.contains(&k) {
+                order.push(k);
+            }
+        }
+        let mut text = String::new();
+        for (k, &v) in perm.iter().enumerate() {
+            text += &format!(
+                "forall '{k}{}. ",
+                if qt.bounds.is_dtype_bound(&tvs[v]) { ": Dim" } else { "" }
+            );
+        }
+        text += &body.replace('\u{1}', "'").replace('\u{2}', "");
+        if order.iter().enumerate().all(|(i, k)| i == *k) {
+            return text;
+        }
+        seen.push(text);
+        perm = order.iter().map(|&k| perm[k]).collect();
+    }
+    seen.sort();
+    seen.into_iter().next().unwrap_or_default()
+}
+
 impl Context {
     /// Names, types and constant values of the session as text lines, sorted; floats only as bit patterns.
     /// Nothing in here depends on the order in which definitions were made unless the session state does.
@@ -460,7 +514,7 @@ impl Context {
             let ty = self
                 .typechecker
                 .lookup_identifier_type(v)
-                .map(|t| t.pretty_print().to_string())
+                .map(|t| canonical_scheme(&t))
                 .unwrap_or_else(|| "?".into());
             let value = self
                 .interpreter
@@ -485,7 +539,7 @@ impl Context {
                 .map(|(sig, _)| {
                     format!(
                         "{} ({})",
-                        sig.fn_type.pretty_print(),
+                        canonical_scheme(&sig.fn_type),
                         sig.parameters
                             .iter()
                             .map(|(_, n, _)| n.as_str())
@@ -506,7 +560,7 @@ impl Context {
             let ty = self
                 .typechecker
                 .lookup_identifier_type(&name)
-                .map(|t| t.pretty_print().to_string())
+                .map(|t| canonical_scheme(&t))
                 .unwrap_or_else(|| "?".into());
             let definition = match self.interpreter.get_defining_unit(&name) {
                 Some(unit) => match unit.iter().next() {
